@@ -70,7 +70,8 @@ Definition spec_step (s : sarr) (o : aop) : bool * sarr :=
                                        (apply_pokes pokes (concat (s_rows s)))))
       | _, _ => (false, s)
       end
-  | OpSetMode m => (true, with_mode s m)
+  | OpSetMode (Some m) => (true, with_mode s m)
+  | OpSetMode None => (false, s)
   | OpReopen m => (true, with_mode s m)
   | OpMetaSet => match s_mode s with R => (false, s) | RW => (true, with_meta s true) end
   | OpMetaClear => if s_meta s then match s_mode s with R => (false, s) | RW => (true, with_meta s false) end
